@@ -12,6 +12,8 @@ import ChythonModel.Proofs.C03Hydrogens
 import ChythonModel.Proofs.C03HydTotal
 import ChythonModel.Proofs.C03SmilesIff
 import ChythonModel.Proofs.C03Bracket
+import ChythonModel.Proofs.C03HydSmiles
+import ChythonModel.Proofs.C03StringsB
 /-!
 # C03 — SMILES reader builds exactly the molecule the text denotes, rejects the rest
 
@@ -511,6 +513,17 @@ example : assignHOpt { ignoreCarbonRadicals := true } ⟨6, 0, false, []⟩ (som
 open ChythonModel.Model.Valence in
 example : assignHOpt { keepImplicit := true } ⟨6, 0, false, []⟩ (some 2) = some (some 2, false) := by decide +kernel
 
+/-- "never an unrelated exception", extended to the hydrogen loop: on every molecule that `smiles` returns — the molecule,
+    or any molecule of any role of a reaction — the hydrogen loop (what the driver prints for each atom), for every
+    combination of its three keywords, raises nothing and yields exactly one entry per atom in atom order -/
+theorem hydrogens_total_on_every_result (o : HOpts) (s : Str) (res : Result) (h : smiles s = .ok res) :
+    ∀ m ∈ builtOf res, (∃ l, molHydrogens m = .ok l ∧ l.map (·.1) = m.atoms.map (·.1)) ∧
+      ∃ l, molHydrogensOpt o m = .ok l ∧ l.map (·.1) = m.atoms.map (·.1) :=
+  fun m hm => ⟨smiles_hydrogens_total s res h m hm, smiles_hydrogens_total_opt o s res h m hm⟩
+
+/-- `[CH3]>>C`: a reaction with two built molecules -/
+example : ∃ res, smiles [91, 67, 72, 51, 93, 62, 62, 67] = .ok res ∧ (builtOf res).length = 2 := ⟨_, rfl, rfl⟩
+
 /-- **Tie to the pipeline**: on every molecule the structural part of `create_molecule` builds, the hydrogen loop
     raises nothing and yields one entry per atom in atom order; entry `i` is `assignH` of the context
     `calc_implicit` would read for atom `i` (`hCtx`) and the atom's written count — so the theorems above are
@@ -694,5 +707,27 @@ theorem bracket_atom_roundtrip (b : BSpell) (h : b.wf) :
 theorem bracket_atom_tokenized (b : BSpell) (hwf : b.wf) (v : Int)
     (hv : (b.chg = [] ∧ v = 0) ∨ lookupStr b.chg chargeDict = some v) :
     smilesTokenize ([91] ++ b.body ++ [93]) = .ok [.atom (b.tok v).1 (b.tok v).2] := smilesTokenize_bracket b hwf v hv
+
+/-- **Tokenizer round trip with bracket atoms**: for every list of lexical tokens — the organic-subset tokens of
+    `lexer_roundtrip` and structured bracket atoms `[…]` — in which no `(` is directly followed by `(`, `)` or a ring
+    number, `smiles_tokenize` of the concatenated spelling returns exactly that token list (bracket atoms as the atom
+    `bracket_atom_roundtrip` describes). -/
+theorem lexer_roundtrip_brackets (ts : List LTokB) (h : LexOKB false ts) :
+    smilesTokenize (ts.flatMap LTokB.render) = .ok (ts.map LTokB.tok) := smilesTokenize_renderB ts h
+
+/-- **From the characters to the graph, bracket atoms included**: `reader_sound_strings` for syntax trees whose atoms are
+    organic-subset spellings *or bracket atoms* (isotope, chirality mark, hydrogen count, every charge spelling, atom
+    class). Whenever the spec assigns the tree a graph, `smiles_tokenize` of the text succeeds and `parser` returns
+    exactly that graph — atoms with their isotope / charge / hydrogen count / class, types, chain and ring bonds. -/
+theorem reader_sound_strings_brackets (c : SChainB) (h : c.wf) (g : Graph B)
+    (hd : denoteR aromB (·.2) c.toChain = some g) :
+    ∃ toks st, smilesTokenize c.text = .ok toks ∧ parse false toks = .ok st ∧
+      st.atoms = g.atoms.map (fun b => strip b.1) ∧ st.types = g.atoms.map (fun b => tyOf b.1) ∧
+      st.bonds = g.bonds := text_to_graphB c h g hd
+
+/-- non-trivial instances: `c1cc[nH]c1` and `[13CH3][C@H](N)C(=O)[O-]` (text, well-formedness) -/
+example : exPyrrole.text = [99, 49, 99, 99, 91, 110, 72, 93, 99, 49] := rfl
+example : exPyrrole.wf := exPyrrole_wf
+example : exAla.wf := exAla_wf
 
 end ChythonModel.Props.C03
